@@ -1765,3 +1765,304 @@ func tgParMentions(f *engine.Fn, owner func(*types.Var) string) bool {
 	})
 	return found
 }
+
+// ---------------------------------------------------------------------------
+// Facts that hold at a site (robust against if/else ⇄ early-return, `a || b`
+// split into consecutive ifs, swapped comparison operands, extracted helpers).
+// ---------------------------------------------------------------------------
+
+// tgFact: expression E is known to be true (Pos) or false (!Pos) at a site of Fn.
+type tgFact struct {
+	E   ast.Expr
+	Pos bool
+	Fn  *engine.Fn
+}
+
+func tgNormFact(e ast.Expr, pos bool, f *engine.Fn) tgFact {
+	for {
+		e = ast.Unparen(e)
+		u, ok := e.(*ast.UnaryExpr)
+		if !ok || u.Op != token.NOT {
+			break
+		}
+		e, pos = u.X, !pos
+	}
+	return tgFact{E: e, Pos: pos, Fn: f}
+}
+
+// tgFactsOfCond splits a condition known to be true/false into the atoms that
+// necessarily hold: true && → each conjunct true; false || → each disjunct false.
+func tgFactsOfCond(f *engine.Fn, cond ast.Expr, holds bool) []tgFact {
+	n := tgNormFact(cond, holds, f)
+	op := token.LAND
+	if !n.Pos {
+		op = token.LOR
+	}
+	parts := engine.Conjuncts(n.E, op)
+	if len(parts) == 1 {
+		return []tgFact{n}
+	}
+	var out []tgFact
+	for _, p := range parts {
+		out = append(out, tgFactsOfCond(f, p, n.Pos)...)
+	}
+	return out
+}
+
+// tgGateFacts returns the facts implied by the gates of site s in f.
+func tgGateFacts(f *engine.Fn, s *engine.Site) []tgFact {
+	var out []tgFact
+	for _, gt := range f.Graph().Gates(s) {
+		out = append(out, tgFactsOfCond(f, gt.Cond, gt.OnTrue)...)
+	}
+	return out
+}
+
+// tgDisjuncts: the atoms of which at least one holds, given the fact
+// (true `a || b` → a, b positive; false `a && b` → a, b negative).
+func tgDisjuncts(ft tgFact) []tgFact {
+	op := token.LOR
+	if !ft.Pos {
+		op = token.LAND
+	}
+	parts := engine.Conjuncts(ft.E, op)
+	if len(parts) == 1 {
+		return []tgFact{ft}
+	}
+	var out []tgFact
+	for _, p := range parts {
+		out = append(out, tgDisjuncts(tgNormFact(p, ft.Pos, ft.Fn))...)
+	}
+	return out
+}
+
+// tgFactCmp decomposes a comparison fact into (x, effective operator, y):
+// the operator is negated when the fact is negative.
+func tgFactCmp(ft tgFact) (x ast.Expr, op token.Token, y ast.Expr, ok bool) {
+	b, isB := ast.Unparen(ft.E).(*ast.BinaryExpr)
+	if !isB {
+		return nil, token.ILLEGAL, nil, false
+	}
+	op = b.Op
+	if !ft.Pos {
+		op = engine.Negate(op)
+	}
+	if op == token.ILLEGAL {
+		return nil, op, nil, false
+	}
+	return b.X, op, b.Y, true
+}
+
+// tgFactIsNil reports whether the fact says "obj is nil" (wantNil) or "obj is not nil".
+func tgFactIsNil(ft tgFact, obj types.Object, wantNil bool) bool {
+	x, op, y, ok := tgFactCmp(ft)
+	if !ok || obj == nil || (op != token.EQL && op != token.NEQ) {
+		return false
+	}
+	info := ft.Fn.Info()
+	var other ast.Expr
+	switch {
+	case engine.ObjOf(info, x) == obj:
+		other = y
+	case engine.ObjOf(info, y) == obj:
+		other = x
+	default:
+		return false
+	}
+	return isNil(other) && (op == token.EQL) == wantNil
+}
+
+// tgFactBool reports whether the fact says that the boolean variable obj is `want`.
+func tgFactBool(ft tgFact, obj types.Object, want bool) bool {
+	id, ok := ast.Unparen(ft.E).(*ast.Ident)
+	return ok && obj != nil && ft.Fn.Info().ObjectOf(id) == obj && ft.Pos == want
+}
+
+// tgFactOrd reports whether the fact implies `lhs op rhs` for one of the
+// accepted operators, where lhs/rhs are recognised by the predicates; operand
+// order is normalised.
+func tgFactOrd(ft tgFact, isL, isR func(ast.Expr) bool, accept ...token.Token) bool {
+	x, op, y, ok := tgFactCmp(ft)
+	if !ok {
+		return false
+	}
+	if !(isL(x) && isR(y)) {
+		if isL(y) && isR(x) {
+			op = engine.Flip(op)
+		} else {
+			return false
+		}
+	}
+	for _, a := range accept {
+		if a == op {
+			return true
+		}
+	}
+	return false
+}
+
+// tgLevel is one function on a chain of helper calls; Call is the call
+// expression in Parent.F that enters F.
+type tgLevel struct {
+	F      *engine.Fn
+	Parent *tgLevel
+	Call   *ast.CallExpr
+	Site   *engine.Site // site of Call in Parent.F
+}
+
+// tgResolveObj follows a helper parameter to the object passed at the call
+// site, up to the outermost level; other objects are returned with their level.
+func tgResolveObj(l *tgLevel, o types.Object) (types.Object, *tgLevel) {
+	for l != nil && l.Parent != nil && o != nil {
+		idx := -1
+		k := 0
+		for _, fld := range l.F.Type.Params.List {
+			for _, nm := range fld.Names {
+				if l.F.Info().ObjectOf(nm) == o {
+					idx = k
+				}
+				k++
+			}
+		}
+		if idx < 0 || idx >= len(l.Call.Args) {
+			return o, l
+		}
+		o = engine.ObjOf(l.Parent.F.Info(), l.Call.Args[idx])
+		l = l.Parent
+	}
+	return o, l
+}
+
+// tgResolveExpr is tgResolveObj for an argument expression: a helper
+// parameter is replaced by the argument expression of the enclosing call.
+func tgResolveExpr(l *tgLevel, e ast.Expr) (ast.Expr, *tgLevel) {
+	for l != nil && l.Parent != nil {
+		o := engine.ObjOf(l.F.Info(), e)
+		if _, isId := ast.Unparen(e).(*ast.Ident); !isId || o == nil {
+			return e, l
+		}
+		idx, k := -1, 0
+		for _, fld := range l.F.Type.Params.List {
+			for _, nm := range fld.Names {
+				if l.F.Info().ObjectOf(nm) == o {
+					idx = k
+				}
+				k++
+			}
+		}
+		if idx < 0 || idx >= len(l.Call.Args) {
+			return e, l
+		}
+		e, l = l.Call.Args[idx], l.Parent
+	}
+	return e, l
+}
+
+// tgChainFacts: gate facts of site s in level l plus the gate facts of every
+// enclosing call site up the chain.
+func tgChainFacts(l *tgLevel, s *engine.Site) []tgFact {
+	out := tgGateFacts(l.F, s)
+	for l.Parent != nil {
+		out = append(out, tgGateFacts(l.Parent.F, l.Site)...)
+		l = l.Parent
+	}
+	return out
+}
+
+// tgExportedContract: derived contract functions that are exported (callable
+// from other packages) — the only ones that need an explicit allow-list.
+func (a *tgFresh) ExportedContracts() []string {
+	var out []string
+	for fn, m := range a.contract {
+		if len(m) == 0 && len(a.slots[fn]) == 0 {
+			continue
+		}
+		if o, ok := fn.Object().(*types.Func); ok && o.Exported() {
+			out = append(out, a.name[fn])
+		}
+	}
+	sort.Strings(out)
+	return out
+}
+
+// tgTableCallers is a who-may-call table closed under private helpers: every
+// referrer of the functions matching pats must be an allowed root or an
+// unexported function all of whose own referrers are accepted; references
+// that are not direct calls are rejected; at least one reference must exist.
+func tgTableCallers(c *engine.Ctx, p *engine.Prog, rule, key string, allowed []string, pats ...string) {
+	refs := p.RefsToFunc(pats...)
+	var nonCalls []string
+	for _, r := range refs {
+		if !r.IsCall {
+			n := "<package-level>"
+			if r.Fn != nil {
+				n = r.Fn.Root().Name
+			}
+			nonCalls = append(nonCalls, n)
+		}
+	}
+	bad := p.UnexpectedCallers(refs, allowed)
+	c.Check(rule, key, token.NoPos, len(bad) == 0 && len(nonCalls) == 0 && len(refs) > 0,
+		"callers: "+join(engine.CallerSet(refs))+"; not allowed (nor private helpers of allowed callers): "+join(bad)+"; used as a value in: "+join(tgUniq(nonCalls)))
+}
+
+// tgTableWriters is the who-may-write counterpart for field writes.
+func tgTableWriters(c *engine.Ctx, p *engine.Prog, rule, key string, ws []engine.Write, filter func(engine.Write) bool, allowed []string) {
+	var refs []engine.Ref
+	for _, w := range ws {
+		if filter == nil || filter(w) {
+			refs = append(refs, engine.Ref{Fn: w.Fn, IsCall: true})
+		}
+	}
+	bad := p.UnexpectedCallers(refs, allowed)
+	c.Check(rule, key, token.NoPos, len(bad) == 0 && len(refs) > 0,
+		"writers: "+join(engine.WriterSet(ws, filter))+"; not allowed (nor private helpers of allowed writers): "+join(bad))
+}
+
+// tgTableObjUsers: every function using the package-level object is allowed
+// (or a private helper of an allowed one).
+func tgTableObjUsers(c *engine.Ctx, p *engine.Prog, rule, key string, o types.Object, allowed []string) {
+	refs := p.RefsTo(func(x types.Object) bool { return o != nil && x == o })
+	bad := p.UnexpectedCallers(refs, allowed)
+	c.Check(rule, key, token.NoPos, o != nil && len(bad) == 0 && len(refs) > 0, "users: "+join(engine.CallerSet(refs))+"; not allowed: "+join(bad))
+}
+
+// tgPoisoningHelper: the call site s calls an unexported function of the
+// loaded program whose every failing return is dominated by an assignment to
+// the `poisoned` field (or itself returns such a helper's error). Returns the
+// number of failing returns found (for floors).
+func tgPoisoningHelper(p *engine.Prog, s *engine.Site, poisF *types.Var, depth int) (int, bool) {
+	fn, _ := s.Callee.(*types.Func)
+	h := p.FnOf(fn)
+	if h == nil || fn.Exported() || depth <= 0 {
+		return 0, false
+	}
+	pois := tgFieldAssigns(h, poisF)
+	g := h.Graph()
+	n := 0
+	for _, r := range tgReturnSites(h) {
+		rs := r.Node.(*ast.ReturnStmt)
+		if !tgFailureReturn(h, rs) {
+			continue
+		}
+		ok := false
+		for _, a := range pois {
+			if g.Dominates(a, r) {
+				ok = true
+			}
+		}
+		k := 1
+		if !ok {
+			if call, isCall := ast.Unparen(rs.Results[len(rs.Results)-1]).(*ast.CallExpr); isCall {
+				if cs := h.SiteOf(call); cs != nil {
+					k, ok = tgPoisoningHelper(p, cs, poisF, depth-1)
+				}
+			}
+		}
+		if !ok {
+			return 0, false
+		}
+		n += k
+	}
+	return n, n > 0
+}
